@@ -81,6 +81,8 @@ static struct islot is[MAXI];
 static struct wslot ws[MAXW];
 
 /* scripted results */
+static struct { int fd, wd; } gone[256];	/* (instance descriptor, watch descriptor) pairs the virtual kernel has already removed */
+static int ngone;
 static int real_mode;
 static char real_root[64];
 static int next_init_fail;
@@ -150,8 +152,14 @@ static ssize_t v_read(int fd, void *buf, size_t count)
 	memcpy(buf, rd_buf, rd_len);
 	cur_base = buf;
 	printf("READ data %zu %d\n", rd_len, rd_nrec);
-	for (k = 0; k < rd_nrec; k++)
+	for (k = 0; k < rd_nrec; k++) {
 		printf("REC %u %d %u %u %u\n", rd_rec[k].off, rd_rec[k].wd, rd_rec[k].mask, rd_rec[k].cookie, rd_rec[k].len);
+		/* like the kernel: by the time an IN_IGNORED record can be read, the watch descriptor is gone on the kernel side, so an
+		 * inotify_rm_watch for it (from a handler working through the earlier records of this batch) fails with EINVAL */
+		if ((rd_rec[k].mask & IN_IGNORED) && ngone < (int)(sizeof(gone) / sizeof(gone[0]))) {
+			gone[ngone].fd = fd; gone[ngone].wd = rd_rec[k].wd; ngone++;
+		}
+	}
 	return rd_len;
 }
 
@@ -174,14 +182,26 @@ static int v_inotify_add_watch(int fd, const char *path, uint32_t mask)
 		return inotify_add_watch(fd, path, mask);
 	if (next_wd == -1)
 		errno = ENOENT;
+	else {
+		int k;		/* the descriptor number is in use again */
+		for (k = 0; k < ngone; k++)
+			if (gone[k].fd == fd && gone[k].wd == next_wd)
+				gone[k] = gone[--ngone], k--;
+	}
 	return next_wd;
 }
 
 static int v_inotify_rm_watch(int fd, int wd)
 {
+	int k;
 	printf("OUT rmwatch %d %d\n", fd, wd);
 	if (real_mode)
 		return inotify_rm_watch(fd, wd);
+	for (k = 0; k < ngone; k++)
+		if (gone[k].fd == fd && gone[k].wd == wd) {
+			errno = EINVAL;
+			return -1;
+		}
 	return 0;
 }
 
